@@ -42,14 +42,17 @@ CLAIMED = {
     "C16": dict(
         text="Machine-checked proof on the control skeleton: a statement that the is_blocking model reports blocking never completes normally "
              "(inside a loop: surely leaves the function) under every oracle = every valuation of unknown tests and iteration counts, every fuel; "
-             "deleting what follows a blocking statement preserves outcome and consumed oracle stream; and has_side_effect's model answers False only for "
+             "the skeleton has if/elif/else, while/for WITH else clauses, with, try/except/finally (handler none / catch-all / may match), return, raise, break, continue, assert; "
+             "deleting what follows a blocking statement preserves outcome, consumed oracle stream and the trace of executed statements; a try statement is never reported blocking; "
+             "and has_side_effect's model answers False only for "
              "expressions in which no position (comprehension element, condition, slice, f-string, keyword value, lambda default) holds a store, a control transfer or a "
-             "call to a callee outside the whitelist (pure_sound). 6 theorems. The models equal core.is_blocking on all enumerated statement shapes and core.has_side_effect "
+             "call to a callee outside the whitelist (pure_sound). 7 theorems. The models equal core.is_blocking on all enumerated statement shapes and core.has_side_effect "
              "on every expression node of the corpus x 3 whitelists; the semantics equals CPython on instrumented functions.",
         design="4/C16",
         note="Trusted: Lean kernel; Flow.lean tied by suites blocking (exhaustive shapes) and exec (CPython); SideEffect.lean tied by suite sideeffect "
              "(expressions and simple statements; If / For / def statements of has_side_effect are outside it); that whitelisted callees are themselves effect-free is "
-             "an assumption (one recorded finding: sorted(key=g)); loop else / try are outside the skeleton fragment.",
+             "an assumption (one recorded finding: sorted(key=g)); try-else, several handlers, async constructs and match statements are outside the skeleton; shapes with a jump in a finally block "
+             "inside a loop are not executed against CPython (they swallow the step budget).",
         technique="Lean 4 proof (simultaneous induction on fuel for statements and statement lists) + exhaustive-shape correspondence + all-valuation execution oracle",
     ),
     "C20": dict(
@@ -169,14 +172,18 @@ CLAIMED = {
         technique="Lean 4 proof (membership) + differential correspondence through the real format_files + client-execution oracle",
     ),
     "C02": dict(
-        text="Machine-checked behaviour preservation for the rules whose decision cores are modelled (delete_unreachable_code, constant-condition folding of remove_dead_ifs, "
-             "the negation used by swap_if_else / early_return / early_continue, replace_negated_numeric_comparison, simplify_boolean_expressions' bound analysis, "
-             "simplify_constrained_range): 6 theorems, corollaries of the C15/C16/C17 developments. The other ~85 rules have NO Lean model: each is applied in isolation to the "
-             "fixed corpus by the rule sweep (support, reported separately; the evidence lists how often each rule fired).",
+        text="Machine-checked behaviour preservation (13 theorems). (1) Control-flow rules: a proved validator - C16.validate l l' = true implies that under every valuation of "
+             "the unknown tests and every iteration count l and l' terminate with the same outcome, oracle position and trace of executed statements and evaluated tests, or both "
+             "diverge (flow_rewrite_sound, via a normaliser proved sound against a big-step semantics with loop else-clauses and try/except/finally); every rewrite the REAL "
+             "remove_dead_ifs, delete_unreachable_code, remove_redundant_else, swap_if_else, early_continue, breakout_common_code_in_ifs make on labelled skeleton programs is "
+             "checked by it (translation validation), a rejected rewrite is executed under all valuations for the replay. (2) Decision cores: constant-condition folding, negation, "
+             "replace_negated_numeric_comparison, simplify_boolean_expressions' bound analysis, simplify_constrained_range (corollaries of C15/C17). The other ~80 rules have NO Lean "
+             "model: each public rule function is applied in isolation to the fixed corpus by the rule sweep (support, reported separately; the evidence lists how often each fired).",
         design="4/C01-C02",
         note="Trusted: Lean kernel; models tied as in C15/C16/C17; for unmodelled rules the claim is NOT shown by proof - only the execution sweep looks at them; corpus inputs "
-             "on which the reference tree already fails are baseline-excluded (corpus/baseline_C02.json).",
-        technique="Lean 4 proof for the modelled rules + per-rule execution sweep over a fixed corpus for all rules",
+             "on which the reference tree already fails are baseline-excluded (corpus/baseline_C02.json); the skeleton abstracts expressions, assignments and return values; reader / renderer "
+             "of the skeleton language (harness/flowrules.py) are trusted; two recorded findings of breakout_common_code_in_ifs are recognised structurally.",
+        technique="Lean 4 proof (verified translation validator for the control-flow rules; corollaries for decision cores) + per-rule execution sweep over a fixed corpus for all rules",
     ),
     "C11": dict(
         text="Machine-checked proof of the whitespace algebra: tab expansion and trailing-blank removal keep the sequence of non-whitespace characters, no tab is left after "
